@@ -49,7 +49,10 @@ def _ops_case(draw, tier):
             op["factor"] = draw(gen.rf(-2.0, 2.0))
         ops.append(op)
     return dict(kind="operators", mesh=draw(meshgen.mesh_spec(tier)), pinned=draw(st.sampled_from(["none", "terminals", "arbitrary", "arbitrary"])),
-                pin_seed=[draw(st.integers(0, 10 ** 6)) for _ in range(6)], fix_psi=draw(st.booleans()) or draw(st.booleans()), ops=ops)
+                pin_seed=[draw(st.integers(0, 10 ** 6)) for _ in range(6)], fix_psi=draw(st.booleans()) or draw(st.booleans()), ops=ops,
+                # how the caller hands the potential over: a new array per call, or one buffer that is overwritten in place
+                # and passed again (as a caller that accumulates applied + induced into a preallocated array does)
+                handover=draw(st.sampled_from(["fresh", "fresh", "buffer"])))
 
 
 @st.composite
@@ -125,7 +128,8 @@ def check_case(spec):
     else:
         fixed = np.unique(np.array([s % n for s in spec["pin_seed"]], dtype=np.int64))
     fix_psi = bool(spec["fix_psi"])
-    res.label(f"pinned={'none' if len(fixed) == 0 else spec['pinned']}", f"fix_psi={fix_psi}", f"src={info['src']}")
+    res.label(f"pinned={'none' if len(fixed) == 0 else spec['pinned']}", f"fix_psi={fix_psi}", f"src={info['src']}",
+              f"handover={spec.get('handover', 'fresh')}")
 
     # (build_operators() only concerns the potential-independent mu operators and is not needed here)
     live = MeshOperators(mesh, SparseSolver.SUPERLU, fixed_sites=fixed, fix_psi=fix_psi)
@@ -140,7 +144,13 @@ def check_case(spec):
             A = prev.copy()
         else:
             A = prev * op["factor"]
-        live.set_link_exponents(A)
+        if spec.get("handover") == "buffer":
+            if step == 0:
+                buf = np.empty_like(A)
+            buf[...] = A
+            live.set_link_exponents(buf)
+        else:
+            live.set_link_exponents(A)
         prev = A
         if not any(np.array_equal(A, d) for d in distinct):
             distinct.append(A)
